@@ -137,7 +137,7 @@ def product_langs():
             live_tables[g] = tab
     conv = rx.Conv(D.product_id_re, group_filter=filt)
     raw = rx.Conv(D.product_id_re)
-    A = rx.accept_language(conv.re, rx.how_matched(D.decode_product_id, "product_id_re"))
+    A = rx.accept_language(conv.re, rx.how_matched(D.decode_product_id, "product_id_re", probe="WWDR1.1__D"))
     return T, A, conv, raw, pin_tables, live_tables, order
 
 
@@ -230,7 +230,7 @@ def ob_scan(tier):
     filt = {g: rx.words(rx.lookup_table(D.translations[g])) for g in D.scan_info_re.groupindex if rx.lookup_table(D.translations[g]) is not None}
     conv = rx.Conv(D.scan_info_re, group_filter=filt)
     raw = rx.Conv(D.scan_info_re)
-    A = rx.accept_language(conv.re, rx.how_matched(D.decode_scan_info, "scan_info_re"))
+    A = rx.accept_language(conv.re, rx.how_matched(D.decode_scan_info, "scan_info_re", probe="F1"))
     S.feasible("scan:feasible", [z3.InRe(s, T)], show=[s])
     _incl(S, "scan:total(T<=A)", T, A, s)
     _incl(S, "scan:exact(A<=T)", A, T, s)
@@ -281,7 +281,7 @@ def scene_accept():
     from vlib import rx
 
     conv = rx.Conv(D.scene_id_re, group_filter={"date": valid_date_re()})
-    return rx.accept_language(conv.re, rx.how_matched(D.decode_scene_id, "scene_id_re"))
+    return rx.accept_language(conv.re, rx.how_matched(D.decode_scene_id, "scene_id_re", probe="ALOS2290760600-191011"))
 
 
 def ob_scene(tier):
@@ -330,10 +330,10 @@ def ob_fname(tier):
     T_pid, A_pid, *_ = product_langs()
     T_scan = z3.Concat(rx.words(P["processing_methods"]), z3.Range("0", "9"))
     scan_filt = {g: rx.words(rx.lookup_table(D.translations[g])) for g in D.scan_info_re.groupindex if rx.lookup_table(D.translations[g]) is not None}
-    A_scan = rx.accept_language(rx.Conv(D.scan_info_re, group_filter=scan_filt).re, rx.how_matched(D.decode_scan_info, "scan_info_re"))
+    A_scan = rx.accept_language(rx.Conv(D.scan_info_re, group_filter=scan_filt).re, rx.how_matched(D.decode_scan_info, "scan_info_re", probe="F1"))
     A_scene = scene_accept()
     filt = {"scene_id": A_scene, "product_id": A_pid, "scan_info": A_scan}
-    how = rx.how_matched(D.decode_filename, "fname_re")
+    how = rx.how_matched(D.decode_filename, "fname_re", probe="IMG-HH-ALOS2290760600-191011-WBDR1.5GUD")
     caps = z3.Loop(z3.Range("A", "Z"), 3, 3)
     pol = rx.words(P["polarizations"])
     dash = z3.Re("-")
